@@ -6,6 +6,9 @@ property).  For every patch that still applies to /repo's *current working tree*
 under $TMPDIR, patched, analysed by the same quick check, and removed again.  What is recorded: which rule instance
 reported it.  A patch that no longer applies (the code it touches has changed) is listed as such and not counted.
 
+Negative controls: /verif/benign/<ID>-r*/patch.diff are behaviour-preserving refactorings (same provenance: sub-agents that
+saw only the property text).  They are run the same way and the wanted outcome is silence.
+
 The controls do not change the verdict on /repo (they say something about the checker); only a check that detects none of
 its applicable controls is treated as broken (exit 3).
 """
@@ -35,6 +38,20 @@ def catalogue(prop):
                 ok = json.load(f).get("confirmed", True)
         if ok:
             out.append((os.path.basename(os.path.dirname(p)), p, "independent"))
+    return out
+
+
+def negative_catalogue(prop):
+    """behaviour-preserving refactorings written for this property (benign/<ID>-r*/patch.diff): the check must stay silent"""
+    out = []
+    for p in sorted(glob.glob(os.path.join(VERIF, "benign", prop + "-*", "patch.diff"))):
+        meta = os.path.join(os.path.dirname(p), "meta.json")
+        ok = True
+        if os.path.exists(meta):
+            with open(meta) as f:
+                ok = json.load(f).get("tests_pass", True)
+        if ok:
+            out.append((os.path.basename(os.path.dirname(p)), p, "refactoring"))
     return out
 
 
@@ -73,12 +90,32 @@ def run(prop, res, tier, repo="/repo"):
     if tier != "thorough" or os.environ.get("VERIF_NO_CONTROLS"):
         return
     cat = catalogue(prop)
-    out = []
+    neg = negative_catalogue(prop)
+    out, nout = [], []
     jobs = int(os.environ.get("VERIF_JOBS", "6"))
     with concurrent.futures.ThreadPoolExecutor(max_workers=jobs) as ex:
         futs = [ex.submit(_one, prop, n, p, o, repo) for n, p, o in cat]
+        nfuts = [ex.submit(_one, prop, n, p, o, repo) for n, p, o in neg]
         for f in futs:
             out.append(f.result())
+        for f in nfuts:
+            r = f.result()
+            # for a refactoring the wanted outcome is silence
+            r["status"] = {"missed": "silent", "detected": "false-alarm"}.get(r["status"], r["status"])
+            nout.append(r)
+    napplied = [r for r in nout if r["status"] in ("silent", "false-alarm", "not-analysable")]
+    res.extra["negative_controls"] = {
+        "what": "behaviour-preserving refactorings (helpers extracted, guard clauses, matches!, constants named, arms merged) written by "
+                "sub-agents that saw only the property text; the 603 pinned tests pass with each; this check must stay silent on them",
+        "catalogue": len(neg), "applied": len(napplied), "silent": len([r for r in napplied if r["status"] == "silent"]),
+        "not_silent": [r["control"] for r in napplied if r["status"] != "silent"],
+        "results": nout,
+    }
+    if neg:
+        print("negative controls %s: %d refactorings, %d applicable, %d silent%s"
+              % (prop, len(neg), len(napplied), len([r for r in napplied if r["status"] == "silent"]),
+                 "" if all(r["status"] == "silent" for r in napplied)
+                 else "; NOT silent (a defect of this checker, not of /repo): " + ", ".join(r["control"] for r in napplied if r["status"] != "silent")))
     applied = [r for r in out if r["status"] in ("detected", "missed", "not-analysable")]
     det = [r for r in applied if r["status"] == "detected"]
     res.extra["controls"] = {
